@@ -139,6 +139,15 @@ public:
     return impl->getFileChecksum(path);
   }
 
+  /// Enforce that an existing object never compares equal to the sentinel
+  /// missing file value once its device and inode have been cleared.
+  static void avoidMissingSentinel(FileInfo& info, bool wasMissing) {
+    if (!wasMissing && info.size == 0 && info.modTime.seconds == 0 &&
+        info.modTime.nanoseconds == 0) {
+      info.modTime.nanoseconds = 1;
+    }
+  }
+
   virtual FileInfo getFileInfo(const std::string& path) override {
     auto info = impl->getFileInfo(path);
 
@@ -146,8 +155,10 @@ public:
     // another device. Here we explicitly, unconditionally override them with 0,
     // enabling an entire build tree to be relocated or copied yet retain the
     // ability to perform incremental builds.
+    bool isMissing = info.isMissing();
     info.device = 0;
     info.inode = 0;
+    avoidMissingSentinel(info, isMissing);
 
     return info;
   }
@@ -155,8 +166,10 @@ public:
   virtual FileInfo getLinkInfo(const std::string& path) override {
     auto info = impl->getLinkInfo(path);
 
+    bool isMissing = info.isMissing();
     info.device = 0;
     info.inode = 0;
+    avoidMissingSentinel(info, isMissing);
 
     return info;
   }
